@@ -108,6 +108,16 @@ Corollary C20_never_plain_http_to_public_host :
 Proof. exact never_plain_http_to_public_host. Qed.
 Print Assumptions C20_never_plain_http_to_public_host.
 
+(** ... and "internal" need not be taken on the implementation's word: if every host that
+    SubjectIsInternal accepts is internal by an independent reading [ref] (the harness judges every
+    host of every URL case and every contacted address by its own reading, written from the
+    special-use registries), an accepted directory is HTTPS or internal by that reading. *)
+Theorem C20_https_unless_really_internal : forall parse internal ref ca_url test_url use_test d,
+  (forall h, internal h = true -> ref h = true) ->
+  client_dir parse internal ca_url test_url use_test = Some d -> secure parse ref d = true.
+Proof. exact https_unless_really_internal. Qed.
+Print Assumptions C20_https_unless_really_internal.
+
 (** The run-time monitor ([Check.spec_hist], evaluated by the check on the *implementation's*
     observations) is the theorems' statement: on every history — any threads, schedule, faults,
     crashes, re-installations — on which the observations are those the model expects, its
